@@ -246,6 +246,14 @@ class EnumVal:
         return f"{self.enum}.{self.member}"
 
 
+class PyCallable:
+    """An engine-level model of a callable parameter: fn(ex, args, kwargs) -> value (may raise RaiseSig)."""
+
+    def __init__(self, fn, label="callable"):
+        self.fn = fn
+        self.label = label
+
+
 class SuperRef:
     def __init__(self, self_val, cls):
         self.self_val = self_val
